@@ -226,13 +226,13 @@ class Arr:
         return reduce_arr(self, "maxred", axis, keepdims)
 
     def any(self, axis=None, **kw):
-        cnt = reduce_arr(ewise(lambda a: T.mk_ind(C(a)), self), "sum", axis, False)
+        cnt = reduce_arr(ewise(lambda a: T.mk_ind(C(a)), self, dtype="real"), "sum", axis, False)
         if isinstance(cnt, Arr):
             return ewise(lambda a: T.cmp_cond("!=", a, ZERO), cnt, dtype="bool")
         return T.cmp_cond("!=", cnt, ZERO)
 
     def all(self, axis=None, **kw):
-        cnt = reduce_arr(ewise(lambda a: T.mk_ind(T.c_not(C(a))), self), "sum", axis, False)
+        cnt = reduce_arr(ewise(lambda a: T.mk_ind(T.c_not(C(a))), self, dtype="real"), "sum", axis, False)
         if isinstance(cnt, Arr):
             return ewise(lambda a: T.cmp_cond("==", a, ZERO), cnt, dtype="bool")
         return T.cmp_cond("==", cnt, ZERO)
